@@ -287,8 +287,11 @@ func stubParseCert(der []byte) (*x509.Certificate, error) {
 			return c, nil
 		}
 	}
-	rt.Fail("ParseCertificate on bytes that are not a chain element")
-	return nil, nil
+	// any other bytes (for instance a certificate list smuggled into a signed header): some certificate, or an error
+	if rt.Choose(rt.Name("foreign.cert.parse.err"), 2) == 1 {
+		return nil, rt.NewEnvError("parsecert")
+	}
+	return rt.Havoc[*x509.Certificate](rt.Name("foreign.cert")), nil
 }
 
 var knownCerts []*x509.Certificate
